@@ -202,7 +202,16 @@ func checkRoundTrip(ct *jsonx.CTree, how int) (string, error) {
 				return fmt.Errorf("String() after a change made through a nested container's handle does not round-trip to the container (%s): %v", text3, err)
 			}
 		}
-		return nil
+		return afterDerivations(c, func(x any, what string) error {
+			if err := verifyText(x, what); err != nil {
+				return err
+			}
+			p, err := jsonx.Parse(rootKind(ct), jsonx.Str(x))
+			if err != nil || !jsonx.Equals(p, x) {
+				return fmt.Errorf("String() of %s does not parse back to an equal container: %v", what, err)
+			}
+			return nil
+		})
 	})
 	return text, err
 }
@@ -255,7 +264,7 @@ func checkStdJSON(ct *jsonx.CTree, how int) (string, error) {
 				return fmt.Errorf("String() after a change made through a nested container's handle does not denote the container's content (%s): %v", text3, err)
 			}
 		}
-		return nil
+		return afterDerivations(c, verifyText)
 	})
 	return text, err
 }
@@ -418,9 +427,173 @@ func checkFormat(ct *jsonx.CTree, how int, layout []jsonx.LayoutTok, full bool) 
 				}
 			}
 		}
-		return nil
+		return afterDerivations(c, func(x any, what string) error {
+			as, err := jsonx.StrictParse(jsonx.Str(x))
+			if err != nil {
+				return fmt.Errorf("String() of %s is not valid JSON: %v", what, err)
+			}
+			for _, n := range []int{2, 0} {
+				f := jsonx.Format(x, n)
+				fs, err := jsonx.StrictParse(f)
+				if err == nil {
+					err = sameRaw(fs, as, "$")
+				}
+				if err != nil {
+					return fmt.Errorf("FormatString(%d) of %s is not a re-layout of its String(): %v: %q", n, what, err, f)
+				}
+				if want := jsonx.Render(fs, n); want != f {
+					return fmt.Errorf("FormatString(%d) of %s is not the canonical layout", n, what)
+				}
+			}
+			return nil
+		})
 	})
 	return text, err
+}
+
+// walkContainers calls f for x and every container below it (children first).
+func walkContainers(x any, f func(c any)) {
+	switch v := x.(type) {
+	case at.List:
+		for i := 0; i < v.Count(); i++ {
+			switch v.TypeOf(i) {
+			case at.TypeList, at.TypeObject:
+				walkContainers(v.Get(i), f)
+			}
+		}
+		f(v)
+	case at.Object:
+		ks := v.Keys().StringSlice()
+		sort.Strings(ks)
+		for _, k := range ks {
+			switch v.TypeOf(k) {
+			case at.TypeList, at.TypeObject:
+				walkContainers(v.Get(k), f)
+			}
+		}
+		f(v)
+	}
+}
+
+// reshape changes every container of a tree in place: objects lose their first and gain a new first and a new last key,
+// lists lose their last element and gain a new first one.
+func reshape(x any, tag string) {
+	walkContainers(x, func(c any) {
+		switch v := c.(type) {
+		case at.List:
+			if v.Count() > 0 {
+				v.Pop()
+			}
+			v.Insert(0, "ins-"+tag)
+		case at.Object:
+			ks := v.Keys().StringSlice()
+			sort.Strings(ks)
+			if len(ks) > 0 {
+				v.Unset(ks[0])
+			}
+			v.Set("\x01first-"+tag, 1, "\U0010FFFElast-"+tag, nil)
+		}
+	})
+}
+
+// afterDerivations: the text of a container depends on its current content only. Copies and derivations that are changed
+// later must not show in the original's text, nor later changes of the original in theirs. verify(x, what) judges String()
+// (or FormatString) of x against x's own content.
+func afterDerivations(c any, verify func(x any, what string) error) error {
+	derive := []struct {
+		name string
+		f    func() any
+	}{
+		{"Clone", func() any {
+			switch v := c.(type) {
+			case at.List:
+				return v.Clone()
+			case at.Object:
+				return v.Clone()
+			}
+			return nil
+		}},
+		{"Merge/Concat with an empty container", func() any {
+			switch v := c.(type) {
+			case at.List:
+				return v.Concat(at.NewList())
+			case at.Object:
+				return v.Merge(at.NewObject())
+			}
+			return nil
+		}},
+		{"SubList/Pluck of everything", func() any {
+			switch v := c.(type) {
+			case at.List:
+				return v.SubList(0, 0)
+			case at.Object:
+				return v.Pluck(v.Keys().StringSlice()...)
+			}
+			return nil
+		}},
+	}
+	for i, d := range derive {
+		x := d.f()
+		if x == nil {
+			continue
+		}
+		// texts of both before any change (fills whatever the serialiser may keep)
+		jsonx.Str(c)
+		jsonx.Str(x)
+		if i == 0 {
+			reshape(x, "copy")
+		} else {
+			// shallow derivations share the nested containers: change the top level only
+			switch v := x.(type) {
+			case at.List:
+				v.Insert(0, "ins-derived")
+			case at.Object:
+				ks := v.Keys().StringSlice()
+				sort.Strings(ks)
+				if len(ks) > 0 {
+					v.Unset(ks[0])
+				}
+				v.Set("\x01first-derived", 1)
+			}
+		}
+		if err := verify(c, "the original after its "+d.name+" was changed"); err != nil {
+			return err
+		}
+		if err := verify(x, "a changed "+d.name); err != nil {
+			return err
+		}
+	}
+	// now the other way round: a deep copy is taken, the original changes
+	var cl any
+	switch v := c.(type) {
+	case at.List:
+		cl = v.Clone()
+	case at.Object:
+		cl = v.Clone()
+	}
+	jsonx.Str(cl)
+	reshape(c, "orig")
+	if err := verify(cl, "a Clone after the original was changed"); err != nil {
+		return err
+	}
+	return verify(c, "the changed original")
+}
+
+// verifyText: String() of x denotes exactly x's current content (strict RFC 8259 reader, content read through Get/TypeOf).
+func verifyText(x any, what string) error {
+	want, err := jsonx.Project(x)
+	if err != nil {
+		return fmt.Errorf("%s cannot be read: %v", what, err)
+	}
+	text := jsonx.Str(x)
+	got, err := jsonx.StrictParse(text)
+	if err == nil {
+		err = jsonx.EqualTree(want, got, "$")
+	}
+	if err != nil {
+		return fmt.Errorf("String() of %s does not denote its content (%s): %v", what, text, err)
+	}
+	return nil
 }
 
 func firstChild(c any) any {
